@@ -15,6 +15,7 @@ RULE = (
     'fixed(noise kw), fixed+learn, Kronecker multitask}, model lists with mixed member likelihoods and per-member noise, KISS-GP (interpolated '
     'strategy) fantasies, depth 1..3 (fantasies of fantasies), fast_pred_var, detach_test_caches, NaN-free, seed); distinct = cell without seed; '
     'non-trivial iff the fantasy posterior differs from the source posterior by > 1e-3'
+    '; pass 5: sources beyond max_cholesky_size (iterative solves, rank-8 Lanczos roots); sibling fantasies of one source examined after one another (cached, deep copy, recomputed, own fantasy, stored noise)'
 )
 REQUIRED = ["fantasy_mean", "fantasy_covar", "fantasy_mean_cache", "fantasy_root_decomposition", "fantasy_root_inv_decomposition", "source_untouched", "monitor:get_fantasy_strategy"]
 ASSUMPTIONS = ["noise of the concatenated data is assembled from public parameters (sigma^2; stored fixed noise followed by the call-time fantasy noise [+ learned sigma^2])"]
